@@ -352,7 +352,7 @@ func genCase(rt *rapid.T) rtCase {
 // key-name options x wrap functions x source / consumer read scripts.
 func TestRoundTripRapid(t *testing.T) {
 	sec := vk.Sec("RoundTripRapid")
-	vk.Check(t, 2500, 96000, func(rt *rapid.T) {
+	vk.Check(t, 2500, 320000, func(rt *rapid.T) {
 		c := genCase(rt)
 		if what, detail := checkCase(c); what != "" {
 			rt.Fatalf("C01 %s violated: %s\ncase: %s", what, detail, c)
